@@ -211,7 +211,7 @@ impl FnSpec {
     fn bounds_src(&self, extra: &[&str]) -> (String, String) {
         // returns (inline bounds after `D`, where predicates on D)
         let mut all: Vec<String> = extra.iter().map(|s| s.to_string()).collect();
-        all.extend(self.bounds.iter().map(|b| format!("B{b}")));
+        all.extend(self.bounds.iter().map(|b| bound_name(*b)));
         let k = self.bounds_in_where.min(all.len());
         let split = all.len() - k;
         (all[..split].join(" + "), all[split..].join(" + "))
@@ -233,7 +233,7 @@ impl FnSpec {
             }
             Deps::RefImpl | Deps::ValImpl => {
                 let mut all: Vec<String> = extra.iter().map(|s| s.to_string()).collect();
-                all.extend(self.bounds.iter().map(|b| format!("B{b}")));
+                all.extend(self.bounds.iter().map(|b| bound_name(*b)));
                 if all.is_empty() {
                     all.push("Sized".into());
                 }
@@ -282,7 +282,7 @@ impl FnSpec {
         let mut sum = String::from("0u32");
         if self.deps != Deps::NoDeps && self.deps != Deps::Concrete {
             for b in &self.bounds {
-                sum.push_str(&format!(" + deps.b{b}()"));
+                sum.push_str(&format!(" + {}", bound_call(*b, self.deps.by_value())));
             }
         }
         s.push_str(&format!("    let __sum: u32 = {sum};\n"));
@@ -315,6 +315,25 @@ impl FnSpec {
     }
 }
 
+/// bounds 0..=2 are plain traits `B<k>`; 3 and 4 are two instantiations of one generic trait (same path, different arguments)
+pub fn bound_name(b: usize) -> String {
+    match b {
+        3 => "GB<i32>".to_string(),
+        4 => "GB<u8>".to_string(),
+        b => format!("B{b}"),
+    }
+}
+
+/// the call a fn body makes through bound `b` of its `deps`
+pub fn bound_call(b: usize, by_value: bool) -> String {
+    let recv = if by_value { "&deps" } else { "deps" };
+    match b {
+        3 => format!("<_ as GB<i32>>::gb({recv})"),
+        4 => format!("<_ as GB<u8>>::gb({recv})"),
+        b => format!("deps.b{b}()"),
+    }
+}
+
 /// Shared prelude of a case module: value types, bound traits, the application type.
 pub fn prelude(max_bound: usize, feature_unimock: bool) -> String {
     let mut s = String::from(
@@ -326,7 +345,11 @@ pub fn prelude(max_bound: usize, feature_unimock: bool) -> String {
          impl rt::HasId for ::entrait::Impl<App> { fn id(&self) -> u32 { self.id } }\n\
          pub fn mk_app(id: u32) -> ::entrait::Impl<App> { ::entrait::Impl::new(App { id }) }\n",
     );
-    for b in 0..max_bound {
+    s.push_str("pub trait GB<E> { fn gb(&self) -> u32; }\nimpl GB<i32> for ::entrait::Impl<App> { fn gb(&self) -> u32 { 400 + self.id } }\nimpl GB<u8> for ::entrait::Impl<App> { fn gb(&self) -> u32 { 500 + self.id } }\n");
+    if feature_unimock {
+        s.push_str("impl GB<i32> for ::unimock::Unimock { fn gb(&self) -> u32 { 400 } }\nimpl GB<u8> for ::unimock::Unimock { fn gb(&self) -> u32 { 500 } }\n");
+    }
+    for b in 0..max_bound.min(3) {
         s.push_str(&format!("pub trait B{b} {{ fn b{b}(&self) -> u32; }}\nimpl B{b} for ::entrait::Impl<App> {{ fn b{b}(&self) -> u32 {{ {} + self.id }} }}\n", 100 * (b + 1)));
         if feature_unimock {
             // exported unimock derivations un-mock through `fn(&Unimock, ..)`: the mock object must satisfy the deps bounds too
